@@ -19,6 +19,12 @@ func main() {
 	switch os.Args[1] {
 	case "case":
 		runCase(os.Args[2], os.Args[3], os.Args[4:])
+	case "replay":
+		os.Exit(checks.Replay(os.Args[2]))
+	case "list":
+		for id := range checks.Registry {
+			fmt.Println(id)
+		}
 	case "check":
 		tier := "quick"
 		if len(os.Args) > 3 {
